@@ -12,7 +12,7 @@ import (
 )
 
 func init() {
-	props["C17"] = &propDef{extraPkgs: []string{jsonPatchPkg}, run: runC17, explanation: "Partial. Decided statically: (P1) ResolveDocument succeeds only across the true edge of strings.HasPrefix(did, namespace + \":\") with the handler's own namespace field — the delimiter is part of the gate; (D1) no function reachable from VDR.Create / Client.CreateDID / the request builders iterates a map with an order-sensitive effect (append/indexed store that survives the loop without a sort, string accumulation, first-match return): DID creation cannot depend on Go's map iteration order; (G1) parseInitialState accepts only on the false edge of b64(JCS(decoded create request)) != supplied initial state, where the request is decoded from the base64url-decoded parameter; ParseDID splits the long form at the last ':'; resolveRequestWithInitialState accepts only across Parse(namespace, initial bytes) (full non-batch validation, C07) and the false edge of suffix != parsed suffix; short-form DIDs (no create request) and DIDs with fewer than three parts are refused; (P2) unpublished transformation info and GetCreateResult wiring. Not decided: that the document read back equals the document created (did-go parsing, behavioural). ProcessOperation: the initial state of the returned DID is b64url(JCS(request bytes)) and its suffix the parsed operation's. (T1) creation maps each verification relationship to the key purpose of the same name (switch or table form). (D2) random key generation in the creation call tree runs only on the edge 'the key option is absent'. The parser's acceptance rules (C07) run inside this check; no equivalent id of an unpublished document carries the initial state. The requested suffix is the last segment verbatim; the raw-document builder rules of C08 and the published-ids rule run here too. (D3) dochandler.New receives did: + the configured method, read after the options; both transformer steps precede every accepting exit. All of C10 and the JCS rules run inside this check; GetCreateResult hands on the applier's model; relationship lists do not share storage. VDR.Read hands the DID on as given. C03.P2 runs here."}
+	props["C17"] = &propDef{extraPkgs: []string{jsonPatchPkg}, run: runC17, explanation: "Partial. Decided statically: (P1) ResolveDocument succeeds only across the true edge of strings.HasPrefix(did, namespace + \":\") with the handler's own namespace field — the delimiter is part of the gate; (D1) no function reachable from VDR.Create / Client.CreateDID / the request builders iterates a map with an order-sensitive effect (append/indexed store that survives the loop without a sort, string accumulation, first-match return): DID creation cannot depend on Go's map iteration order; (G1) parseInitialState accepts only on the false edge of b64(JCS(decoded create request)) != supplied initial state, where the request is decoded from the base64url-decoded parameter; ParseDID splits the long form at the last ':'; resolveRequestWithInitialState accepts only across Parse(namespace, initial bytes) (full non-batch validation, C07) and the false edge of suffix != parsed suffix; short-form DIDs (no create request) and DIDs with fewer than three parts are refused; (P2) unpublished transformation info and GetCreateResult wiring. Not decided: that the document read back equals the document created (did-go parsing, behavioural). ProcessOperation: the initial state of the returned DID is b64url(JCS(request bytes)) and its suffix the parsed operation's. (T1) creation maps each verification relationship to the key purpose of the same name (switch or table form). (D2) random key generation in the creation call tree runs only on the edge 'the key option is absent'. The parser's acceptance rules (C07) run inside this check; no equivalent id of an unpublished document carries the initial state. The requested suffix is the last segment verbatim; the raw-document builder rules of C08 and the published-ids rule run here too. (D3) dochandler.New receives did: + the configured method, read after the options; both transformer steps precede every accepting exit. All of C10 and the JCS rules run inside this check; GetCreateResult hands on the applier's model; relationship lists do not share storage. VDR.Read hands the DID on as given. C03.P2 runs here. C18.P1's service rules run here; equivalent ids carry the label."}
 }
 
 // mapRangeOrderEffects reports order-sensitive effects of map iterations in f.
@@ -833,6 +833,10 @@ func runC17(c *Ctx) {
 	// to the model hash (C03.P2) — a hash over a copy without one of its members gives several initial states one suffix
 	c.only(runC03, "C03.P2")
 	c.Min("C03.P2", 1)
+	// "resolves to a document equivalent to the one supplied": the transformer copies every further member of a service,
+	// whatever its value (C18.P1's service rules)
+	c.only(runC18, "C18.P1::service")
+	c.Min("C18.P1", 3)
 	c.Assume("default update/recovery key generation (crypto/rand) happens only when the caller supplies no key; did-go document parsing and serialisation are outside the claim")
 	// a long-form DID is resolved by handing its initial state to the operation parser: what the parser accepts (and
 	// the limits it applies, each to the thing it is defined on) is part of "every DID Create hands out resolves"
@@ -875,7 +879,7 @@ func (c *Ctx) equivalentIDsShortForm(rule string) {
 		return
 	}
 	n := 0
-	var bad []string
+	var bad, unlabelled []string
 	var scan func(fn *ssa.Function, env Env, d int)
 	scan = func(fn *ssa.Function, env Env, d int) {
 		forEachInstr(fn, func(in ssa.Instruction) {
@@ -890,8 +894,14 @@ func (c *Ctx) equivalentIDsShortForm(rule string) {
 				}
 				for _, e := range els {
 					n++
-					if cf := c.concatForm(e, env); strings.Contains(cf, "$4") {
+					cf := c.concatForm(e, env)
+					if strings.Contains(cf, "$4") {
 						bad = append(bad, cf)
+					}
+					// … and every one of them is (where a label is configured) the labelled id: the value appended can be the
+					// id with the label — an id taken before the label is applied names another, unlabelled DID
+					if !strings.Contains(cf, "$2") {
+						unlabelled = append(unlabelled, cf)
 					}
 				}
 				return
@@ -903,6 +913,7 @@ func (c *Ctx) equivalentIDsShortForm(rule string) {
 	}
 	scan(f, nil, 0)
 	c.Check(rule, "unpublished:equivalent-ids-carry-no-initial-state", len(bad) == 0 && n > 0, f.Pos(), fmt.Sprintf("%d equivalent id(s) appended; containing the initial state: %v", n, bad))
+	c.Check(rule, "unpublished:equivalent-ids-carry-the-label", len(unlabelled) == 0 && n > 0, f.Pos(), fmt.Sprintf("%d equivalent id(s) appended; that can never carry the configured label: %v", n, unlabelled))
 }
 
 // canonCond renders a branch condition with its truth value in a canonical spelling: negations are folded into the
